@@ -666,6 +666,14 @@ def _atom_nonneg(a):
     return False
 
 
+def _atom_pos(a):
+    """strictly positive (hence non-zero) atom"""
+    t = a[0]
+    if t == "s":
+        return a[1] in POSITIVE
+    return t in ("num", "exp", "expc")
+
+
 def _mono_nonneg(m):
     for a, e in m:
         if _atom_nonneg(a):
@@ -897,12 +905,15 @@ def ind(op, lhs, rhs):
         v = {"le": n <= 0, "lt": n < 0, "eq": n == 0}[op]
         return Poly.const(1 if v else 0)
     if op == "eq":
-        # canonical orientation
-        c0, g, q = primitive(d) if len(d.t) > 1 else (None, None, None)
-        if q is not None:
-            return Poly.atom(("ind", "eq", Poly({g: ONE}) * q, Poly()))
-        ((m, c),) = d.t.items()
-        return Poly.atom(("ind", "eq", Poly({m: ONE}), Poly()))
+        # canonical orientation: d == 0 with d primitive and without factors known to be non-zero
+        if len(d.t) > 1:
+            c0, g, q = primitive(d)
+        else:
+            ((g, c0),) = d.t.items()
+            q = Poly.const(1)
+        g2 = tuple((a, 1 if e > 0 else -1) for a, e in g if not _atom_pos(a))
+        g2 = tuple((a, 1) for a, e in g2)
+        return Poly.atom(("ind", "eq", Poly({g2: ONE}) * q, Poly()))
     return Poly.atom(("ind", op, lhs, rhs))
 
 
@@ -912,15 +923,35 @@ def ind(op, lhs, rhs):
 
 
 def map_atoms(p, f):
-    """rebuild p applying f(atom)->Poly|None (None = keep, after recursing into nested polys)"""
+    """rebuild p applying f(atom)->Poly|None (None = keep, after recursing into nested polys).
+    Atoms with algebraic meaning (P, exp, abs, ind) are rebuilt through their constructors so that the
+    result is again in normal form."""
     out = Poly()
     for m, c in p.t.items():
         term = Poly.const(c)
         for a, e in m:
             r = f(a)
-            if r is None:
-                r = Poly.atom(_map_nested(a, f))
-            term = term * (as_poly(r) ** e)
+            if r is not None:
+                term = term * (as_poly(r) ** e)
+                continue
+            t = a[0]
+            if t == "P":
+                inner = map_atoms(a[1], f)
+                term = term * (Poly.atom(a, e) if inner == a[1] else inner**e)
+            elif t in ("exp", "expi"):
+                inner = map_atoms(Poly({a[1]: ONE}), f)
+                if inner == Poly({a[1]: ONE}):
+                    term = term * Poly.atom(a, e)
+                else:
+                    term = term * (exp(inner if t == "exp" else inner.scale(IMAG)) ** e)
+            elif t == "abs":
+                inner = map_atoms(a[1], f)
+                term = term * (Poly.atom(a, e) if inner == a[1] else absval(inner) ** e)
+            elif t == "ind" and a[1] in ("eq", "le", "lt"):
+                l, r2 = map_atoms(a[2], f), map_atoms(a[3], f)
+                term = term * (Poly.atom(a) if (l == a[2] and r2 == a[3]) else ind(a[1], l, r2))
+            else:
+                term = term * Poly.atom(_map_nested(a, f), e)
         out = out + term
     return out
 
